@@ -319,9 +319,10 @@ namespace
       Bytes bf = b1;
       simfs::FaultLog log;
       int nops = 1 + int(sim::cfg_weighted("fault_ops", {5, 2, 1}));
+      int valid_variants = 0;   // ops that turn a valid file into another valid file
       for(int k = 0; k < nops; ++k)
       {
-        int kind = int(sim::cfg_weighted(("fault_kind" + std::to_string(k)).c_str(), {4, 2, 1, 1, 3, 3, 3, 2, 2, 2, 2, 3, 2, 3, 2, 2, 1, 2}));
+        int kind = int(sim::cfg_weighted(("fault_kind" + std::to_string(k)).c_str(), {4, 2, 1, 1, 3, 3, 3, 2, 2, 2, 2, 3, 2, 3, 2, 2, 1, 2, 2}));
         int bias = int(sim::cfg_int(("fault_bias" + std::to_string(k)).c_str(), 0, 1));
         switch(kind)
         {
@@ -343,6 +344,7 @@ namespace
         case 15: part_drop_dimension(bf, log); break;
         case 16: part_make_empty(bf, log); break;
         case 17: chart_index_out_of_range(bf, log); break;
+        case 18: if(part_parent_topology(bf, log)) ++valid_variants; break;
         }
       }
       size_t eof_limit = size_t(-1);
@@ -364,11 +366,24 @@ namespace
       Doc df;
       size_t c_rf = simfs::draw_chunk("chunk_rf");
       Parsed pf = parse(bf, df, c_rf, vary, eof_limit);
+      // a file that only went through validity-preserving rewrites is a valid file
+      const bool still_valid = valid_variants > 0 && valid_variants == nops && eof_limit == size_t(-1);
+      if(pf.outcome == REJECTED && still_valid) sim::fail("VALID_FILE_REJECTED", where + ": valid input rejected after " + log.ops + ": " + pf.what);
       if(pf.outcome == REJECTED) { ++CNT.rejected; if(log.must_reject) ++CNT.must_reject; return; }
       ++CNT.accepted;
       if(log.must_reject) sim::fail("ACCEPTED_INVALID", where + ": invalid input accepted after " + log.ops + "(" + log.why + ")");
       // accepted after a fault: no claim about values, but the result must be structurally valid and re-writable
       check_valid(df, where);
+      if(still_valid)
+      {
+        // the topology the reader deduced for the rewritten part has to be that of the parent entities it names
+        const MeshType* m = df.node->get_mesh();
+        for(const auto& n : df.node->get_mesh_part_names())
+        {
+          const auto* p = df.node->find_mesh_part(n);
+          if(p && m && p->has_topology()) check_part_topology<dim>(*p, *m, where + " after " + log.ops + "part " + n);
+        }
+      }
       Bytes b3, b4;
       write(df, b3, 4096, false);
       Doc d3;
@@ -836,6 +851,40 @@ namespace
       log.ops += "PART_DROP_DIM(" + std::to_string(d) + ") ";
       sim::count_fault("PART_DROP_DIM");
     }
+    // a part with its own topology rewritten as a part that takes its topology from the parent (topology="parent": the
+    // reader deduces it), its vertices listed in another order. Same part, other author. Returns whether it was applied.
+    static bool part_parent_topology(Bytes& b, simfs::FaultLog& log)
+    {
+      std::string s(b.begin(), b.end());
+      std::vector<std::pair<size_t, size_t>> cand;
+      for(auto pr : mesh_parts(s))
+      {
+        std::string part = s.substr(pr.first, pr.second - pr.first);
+        if(part.find("topology=\"full\"") < part.find('\n') && part.find("<Mapping dim=\"0\"") != std::string::npos) cand.push_back(pr);
+      }
+      if(cand.empty()) return false;
+      auto pr = cand[simfs::pick(cand.size(), "ppt_part")];
+      std::string part = s.substr(pr.first, pr.second - pr.first);
+      part.replace(part.find("topology=\"full\""), 15, "topology=\"parent\"");
+      erase_blocks(part, "<Topology dim=", "</Topology>", false);
+      // permute the data lines of the vertex mapping
+      size_t mb = part.find("<Mapping dim=\"0\"");
+      size_t first = part.find('\n', mb); size_t me = part.find("</Mapping>", mb);
+      if(first == std::string::npos || me == std::string::npos) return false;
+      ++first;
+      size_t last = part.rfind('\n', me); if(last == std::string::npos || last < first) return false; ++last;
+      std::vector<std::string> lines;
+      for(size_t a = first; a < last; ) { size_t e = part.find('\n', a); if(e == std::string::npos || e >= last) e = last - 1; lines.push_back(part.substr(a, e + 1 - a)); a = e + 1; }
+      for(size_t i = lines.size(); i > 1; --i) std::swap(lines[i - 1], lines[simfs::pick(i, "ppt_perm")]);
+      std::string body; for(const auto& l : lines) body += l;
+      part.replace(first, last - first, body);
+      s.replace(pr.first, pr.second - pr.first, part);
+      b.assign(s.begin(), s.end());
+      log.ops += "PART_PARENT_TOPOLOGY ";
+      sim::count_fault("PART_PARENT_TOPOLOGY");
+      return true;
+    }
+
     // a mesh part without any entity (its attributes, if any, keep their markup and lose their values)
     static void part_make_empty(Bytes& b, simfs::FaultLog& log)
     {
